@@ -35,6 +35,7 @@ func main() {
 	dump := flag.String("dump", "", "debug: dump calls and facts of pkg:Func")
 	explain := flag.String("explain", "", "replay: print the obligation stored in this violation file, re-derived")
 	list := flag.Bool("list", false, "list implemented properties")
+	verbose := flag.Bool("v", false, "print every obligation")
 	flag.Parse()
 
 	if *list {
@@ -86,6 +87,11 @@ func main() {
 		return 0
 	}()
 	_ = code
+	if *verbose {
+		for _, o := range c.obls {
+			fmt.Printf("  %-10s [%s] %s %s — %s\n", o.Status, o.Rule, o.Key, o.Pos, o.Why)
+		}
+	}
 	exit := c.finish(start, spec.explanation, spec.assumptions)
 	if *explain != "" {
 		explainObligation(c, *explain)
